@@ -54,7 +54,7 @@ def conv_trace(script, events, m):
             ei += 1
             if e.get('ev') == 'memerr':
                 return out, 'memerr'
-            rc = names[e['rc']] if 'rc' in e and 0 <= e['rc'] < len(names) else 'rc%s' % e.get('rc')
+            rc = names[e['rc']] if 'rc' in e and 0 <= e['rc'] < len(names) else ('TRAP' if e.get('rc') == -100 else 'rc%s' % e.get('rc'))
             if pending_force:
                 raise ValueError('force commands must be followed by an explicit force event (use force_event())')
             if c == 'S':
